@@ -321,6 +321,51 @@ def rule_d_indices(ctx):
     ctx.ob("floor|link-field-accesses", n >= 5, "expected >= 5 link-field accesses in the keyed queue (found %d)" % n)
 
 
+def rule_heap_comparisons(ctx):
+    """Every ordering decision of the keyed queue compares whole UniqueKeys (key, then epoch: C20.c). A comparison of a component
+    alone - the user key, or the epoch - orders entries differently from the order the heap was built with (and an epoch compared
+    after truncation aliases keys)."""
+    P = ctx.prog
+    n = 0
+    for nm in ("sift_up", "sift_down", "extract", "insert", "pull", "peek", "peek_key"):
+        b = P.body(IPQ + "IndexedPriorityQueue::" + nm)
+        if b is None:
+            continue
+        bad = []
+        good = []
+        for s in b.calls(r"^std::cmp::(PartialOrd|Ord)::(lt|le|gt|ge|cmp|partial_cmp|max|min)$"):
+            tys = (s.node.get("argtys") or [])[:2]
+            if len(tys) == 2 and all("indexed_priority_queue::UniqueKey<" in t for t in tys):
+                good.append(s)
+            else:
+                bad.append(s)
+        # component comparisons compiled to MIR binary operators (integers) or PartialEq on a component
+        for st in b.assigns():
+            r = st.node["r"]
+            if r["r"] == "bin" and r["op"] in ("Lt", "Le", "Gt", "Ge"):
+                for side in (r["a"], r["b"]):
+                    for o in b.origins(side, st):
+                        names = origin_proj_names(o)[1]
+                        if any(x == ("f", "epoch") or x == ("f", "key") for x in names):
+                            bad.append(st)
+        n += len(good)
+        if good or bad:
+            ctx.ob("heap-order-compares-unique-keys|%s" % nm, not bad,
+                   "IndexedPriorityQueue::%s orders entries only by comparing whole UniqueKeys (%d such comparisons)" % (nm, len(good)), bad or good)
+    ctx.ob("floor|unique-key-comparisons", n >= 5, "expected >= 5 UniqueKey comparisons in the keyed queue (found %d)" % n)
+    # the epoch equality test of extract compares full-width values
+    b = P.body(IPQ + "IndexedPriorityQueue::extract")
+    if b is not None:
+        casts = []
+        for st in b.assigns():
+            r = st.node["r"]
+            if r["r"] == "cast":
+                for o in b.origins(r["o"], st):
+                    if any(x == ("f", "epoch") for x in origin_proj_names(o)[1]):
+                        casts.append(st)
+        ctx.ob("extract|epoch-compared-at-full-width", not casts, "extract compares the stored and the presented epoch without casting them", casts or [b.name])
+
+
 def rule_e(ctx):
     """gRPC key registry (only compiled with the `grpc` feature: thorough tier)"""
     P = ctx.prog
@@ -364,6 +409,7 @@ RULES = [
     ("C20.c", "UniqueKey orders by (key, epoch)", rule_c),
     ("C20.d", "extract only on matching epoch; InsertKey carries it", rule_d),
     ("C20.i", "heap <-> slab accesses go through the slab_idx / heap_idx link fields", rule_d_indices),
+    ("C20.j", "ordering decisions compare whole UniqueKeys; epochs compared at full width", rule_heap_comparisons),
 ]
 
 
